@@ -151,7 +151,7 @@ Proof. vm_compute. repeat split. Qed.
    (sample_holds / alphas_hold: utilities evaluate to V(alternative), id, correction, weight and alpha
    columns); the nest parameters evaluate to non-zero reals (nests_ok / cnests_ok, alphas > 0); the full
    model is accepted by its validators ([lognested ... = Ok l]: nests pairwise disjoint, non-empty,
-   inside the choice set); every nest lists an alternative once and lies in the MEV partition.
+   inside the choice set, each listing an alternative once); every nest lies in the MEV partition.
    For the cross-nested logit a numeric nest parameter must be one on which Python's double arithmetic
    is exact (cnests_exact: (1/mu - 1) computed by the sample builder vs (1 - mu)/mu by cnl.py);
    trivially true for parameters given as expressions. *)
@@ -162,7 +162,7 @@ Theorem T19g_full_sampling_nested :
   Permutation (keys U) (full_set strata) ->
   (forall k e, In (k, e) U -> evalX Phi e en = XR (Vf k)) ->
   nests_ok Phi en (nn_arg_nests a) ->
-  (forall m, In m (nn_arg_nests a) -> NoDup (nn_alts m) /\ incl (nn_alts m) (full_set mev)) ->
+  (forall m, In m (nn_arg_nests a) -> incl (nn_alts m) (full_set mev)) ->
   sample_holds Phi en Vf "" idcol log_proba_col 0 (ids rows) (map row_corr rows) us ->
   sample_holds Phi en Vf pre idcol mev_weight_col j0 (ids mrows) (map row_weight mrows) ums ->
   pvX Phi en ch = XR (IZR c) ->
@@ -225,7 +225,7 @@ Example T19g_example : forall Phi,
   Permutation (keys ex_U) (full_set ex_strata) /\
   (forall k e, In (k, e) ex_U -> evalX Phi e ex_en = XR (IZR k)) /\
   nests_ok Phi ex_en (nn_arg_nests ex_nn) /\
-  (forall m, In m (nn_arg_nests ex_nn) -> NoDup (nn_alts m) /\ incl (nn_alts m) (full_set ex_strata)) /\
+  (forall m, In m (nn_arg_nests ex_nn) -> incl (nn_alts m) (full_set ex_strata)) /\
   sample_holds Phi ex_en IZR "" "alt_id" log_proba_col 0 (ids ex_rows) (map row_corr ex_rows) ex_us /\
   sample_holds Phi ex_en IZR mev_prefix "alt_id" mev_weight_col 0 (ids ex_mrows) (map row_weight ex_mrows) ex_ums /\
   pvX Phi ex_en (PN d_one) = XR (IZR 1) /\
@@ -240,7 +240,7 @@ Proof.
   split; [apply Permutation_refl|].
   split; [intros k e [[= <- <-]|[[= <- <-]|[]]]; reflexivity|].
   split; [intros m [<-|[]]; exists 2%R; split; [reflexivity | lra]|].
-  split; [intros m [<-|[]]; split; [repeat constructor; simpl; intuition lia | apply incl_refl]|].
+  split; [intros m [<-|[]]; apply incl_refl|].
   split; [simpl; repeat split; reflexivity|].
   split; [simpl; repeat split; reflexivity|].
   split; [unfold pvX; simpl; now rewrite D2R_one|].
@@ -290,29 +290,20 @@ Proof.
              mev_prefix ex_us 0%nat ex_ums (PN d_one) l' t' H1 H2 H3 H1 H2 H4 H5 H6 G1 G2 G3 G4 G5 H9 G6 H10 G7 H11 E3 E4).
 Qed.
 
-(* The hypothesis "every nest lists an alternative once" of T19g cannot be dropped, although the
-   validators of nests.py accept such a nest: models.lognested counts a repeated alternative twice in
-   the nest sum, the sample builder (BelongsTo a set) once.  Witness inside the proof; replayed on the
-   implementation by corpus/C19/full_nest_repeats_alternative.json. *)
-Theorem T19g_nest_repeating_an_alternative_refuted : forall Phi,
-  exists en Vf (U : dict expr) (a : nn_arg) strata mev c rows mrows idcol pre us j0 ums ch l t,
-    wf_strata strata /\ fully_sampled strata /\ valid_sample strata c rows /\
-    wf_strata mev /\ fully_sampled mev /\ valid_mev_sample mev mrows /\
-    Permutation (keys U) (full_set strata) /\
-    (forall k e, In (k, e) U -> evalX Phi e en = XR (Vf k)) /\
-    nests_ok Phi en (nn_arg_nests a) /\
-    (forall m, In m (nn_arg_nests a) -> incl (nn_alts m) (full_set mev)) /\
-    sample_holds Phi en Vf "" idcol log_proba_col 0 (ids rows) (map row_corr rows) us /\
-    sample_holds Phi en Vf pre idcol mev_weight_col j0 (ids mrows) (map row_weight mrows) ums /\
-    pvX Phi en ch = XR (IZR c) /\
-    lognested (pe_dict U) None a ch = Ok l /\
-    get_nested_logit pre idcol us j0 ums (nn_arg_nests a) = Ok t /\
-    evalX Phi t en <> evalX Phi l en.
-Proof. exact nested_repeated_alternative_refuted. Qed.
-Print Assumptions T19g_nest_repeating_an_alternative_refuted.
+(* A nest whose list repeats an alternative is refused by the validators of nests.py (models.lognested
+   raises BiogemeError = Err 1) although the sample builder would build an expression: this is why T19g
+   needs no separate "each nest lists an alternative once" hypothesis (it follows from [lognested = Ok]).
+   Before the repair of the validators the two log likelihoods differed on this witness (the nest sum of
+   lognested counted the alternative twice); replayed on the implementation by
+   corpus/C19/full_nest_repeats_alternative.json. *)
+Theorem T19g_nest_repeating_an_alternative_refused :
+  (forall ch, lognested (pe_dict rf_U) None rf_nn ch = Err 1) /\
+  exists t, get_nested_logit mev_prefix "alt_id" rf_us 0 rf_ums (nn_arg_nests rf_nn) = Ok t.
+Proof. exact nested_repeated_alternative_refused. Qed.
+Print Assumptions T19g_nest_repeating_an_alternative_refused.
 
-(* the closed form that holds with or without repetitions: on the sample a nest is the SET of its
-   alternatives *)
+(* the closed form of the sample builder alone (no reference to the full model): on the sample a nest
+   is the SET of its alternatives *)
 Theorem T19g_sampled_nested_value :
   forall Phi en Vf strata mev c rows mrows idcol pre us j0 ums (nests : list nnest) t,
   wf_strata strata -> fully_sampled strata -> valid_sample strata c rows ->
